@@ -330,3 +330,37 @@ Lemma digests_source hash file start length bs :
   256 <= eff_bs (Z.of_nat (List.length file)) start length bs ->
   check_file hash SOURCE_CHUNK file start length bs = Sums (spec_sums hash file start length bs).
 Proof. intros. apply digests; [reflexivity|assumption|assumption]. Qed.
+
+(* ---- algorithm selection ---------------------------------------------------------------------- *)
+Lemma existsb_eqb_in x l : existsb (Z.eqb x) l = true <-> In x l.
+Proof.
+  rewrite existsb_exists. split.
+  - intros (y & Hy & E). apply Z.eqb_eq in E. now subst.
+  - intros H. exists x. split; [exact H|apply Z.eqb_refl].
+Qed.
+
+(* the reply's algorithm is the FIRST name of the client's list that the server supports *)
+Lemma first_supported_some sup req a :
+  first_supported sup req = Some a ->
+  exists l1 l2, req = l1 ++ a :: l2 /\ In a sup /\ (forall x, In x l1 -> ~ In x sup).
+Proof.
+  unfold first_supported. induction req as [|y req IH]; cbn; [discriminate|].
+  destruct (existsb (Z.eqb y) sup) eqn:E; intros H.
+  - inversion H. subst. exists [], req. split; [reflexivity|]. split; [now apply existsb_eqb_in|].
+    intros x [].
+  - destruct (IH H) as (l1 & l2 & -> & Hin & Hno). exists (y :: l1), l2. split; [reflexivity|].
+    split; [exact Hin|]. intros x [<-|Hx]; [|now apply Hno].
+    intros Hc. apply existsb_eqb_in in Hc. congruence.
+Qed.
+
+Lemma first_supported_none sup req :
+  first_supported sup req = None <-> (forall x, In x req -> ~ In x sup).
+Proof.
+  unfold first_supported. induction req as [|y req IH]; cbn.
+  - split; [intros _ x []|reflexivity].
+  - destruct (existsb (Z.eqb y) sup) eqn:E.
+    + split; [discriminate|]. intros H. exfalso. apply (H y); [now left|now apply existsb_eqb_in].
+    + rewrite IH. split.
+      * intros H x [<-|Hx]; [|now apply H]. intros Hc. apply existsb_eqb_in in Hc. congruence.
+      * intros H x Hx. apply H. now right.
+Qed.
